@@ -198,6 +198,24 @@ func (c zzC04Conc) cid(n int) (s string) {
 	return fmt.Sprintf("%s-%d", pre, n)
 }
 
+// reqCID is the ClientID string a request presents for the abstract value id:
+// a ClientID proper, or a legal ClientID that merely looks like a mac ("cidmac",
+// "cidmacu") or an address ("cidip") of the universe.
+func (c zzC04Conc) reqCID(id zzC04ID) (s string) {
+	switch id.K {
+	case "cid":
+		return c.cid(id.X)
+	case "cidmac":
+		return strings.ReplaceAll(c.mac(id.X).String(), ":", "-")
+	case "cidmacu":
+		return strings.ToUpper(strings.ReplaceAll(c.mac(id.X).String(), ":", "-"))
+	case "cidip":
+		return strings.NewReplacer(".", "-", ":", "-", "%", "-").Replace(c.addr(id.X).String())
+	default:
+		return ""
+	}
+}
+
 // storedStrings are the spellings under which client number owner registers
 // the identifier -- a fixed (seeded) function of the owner and the identifier,
 // so that two clients spell the same identifier differently:
@@ -884,10 +902,7 @@ func (rn *zzC04Runner) observe() (o *zzC04Obs) {
 		o.Fa = append(o.Fa, find(rn.conc.addr(a).String()))
 	}
 	for _, cid := range rn.uni.CIDs {
-		cs := ""
-		if cid.K == "cid" {
-			cs = rn.conc.cid(cid.X)
-		}
+		cs := rn.conc.reqCID(cid)
 		row := make([]int, 0, len(rn.uni.Addrs))
 		for _, a := range rn.uni.Addrs {
 			var e zzC04Eff
@@ -1148,6 +1163,7 @@ type zzC04SetVec struct {
 	Own  bool        `json:"own"`
 	Bs   bool        `json:"bs"`
 	Hit  zzC04SetEff `json:"hit"`
+	Like zzC04SetEff `json:"like"`
 	Miss zzC04SetEff `json:"miss"`
 }
 
@@ -1189,19 +1205,20 @@ func TestZZVerifC04Settings(t *testing.T) {
 			rigs[key] = rig
 		}
 		rig.reset(t)
-		c := zzC04Conc{v: zzC04Variant{MacLen: 6, V6: rng.Intn(3) == 0, Seed: rng.Int63(), Names: rng.Intn(3), W: 4}}
+		c := zzC04Conc{v: zzC04Variant{MacLen: []int{6, 8, 20}[rng.Intn(3)], MacColon8: rng.Intn(2) == 0, V6: rng.Intn(3) == 0, Seed: rng.Int63(), Names: rng.Intn(3), W: 4}}
 		name := c.name(1)
-		p, err := rig.persistent(name, []string{c.addr(5).String()}, v.Own, v.Bs, v.V, zzC04Svcs(v.Cs), v.Cp)
+		p, err := rig.persistent(name, []string{c.addr(5).String(), c.macString(1)}, v.Own, v.Bs, v.V, zzC04Svcs(v.Cs), v.Cp)
 		if err != nil {
 			t.Fatalf("SetIDs: %v", err)
 		}
 		if err = rig.st.Add(rig.ctx, p); err != nil {
 			t.Fatalf("Add: %v", err)
 		}
-		for i, want := range []zzC04SetEff{v.Hit, v.Miss} {
-			addr := c.addr([]int{5, 12}[i])
+		for i, want := range []zzC04SetEff{v.Hit, v.Miss, v.Like} {
+			addr := c.addr([]int{5, 12, 12}[i])
+			reqCID := []string{"", "", c.reqCID(zzC04ID{K: "cidmac", X: 1})}[i]
 			var e zzC04Eff
-			what := zzC04Try(func() { e = rig.effective("", addr) })
+			what := zzC04Try(func() { e = rig.effective(reqCID, addr) })
 			wantWho := ""
 			if want.Who != "" {
 				wantWho = name
@@ -1223,9 +1240,9 @@ func TestZZVerifC04Settings(t *testing.T) {
 			}
 			if what != "" {
 				bad++
-				w.put(map[string]any{"t": "bad", "vec": v, "req": []string{"hit", "miss"}[i], "what": what, "got": e,
-					"concrete": fmt.Sprintf("global %v %v schedule=%s; client %q %s own=%v bs=%v vals=%v svcs=%v schedule=%s; request from %s",
-						v.G, zzC04Svcs(v.Gs), v.Gp, name, c.addr(5), v.Own, v.Bs, v.V, zzC04Svcs(v.Cs), v.Cp, addr)})
+				w.put(map[string]any{"t": "bad", "vec": v, "req": []string{"hit", "miss", "like"}[i], "what": what, "got": e,
+					"concrete": fmt.Sprintf("global %v %v schedule=%s; client %q %s own=%v bs=%v vals=%v svcs=%v schedule=%s; request from %s ClientID %q",
+						v.G, zzC04Svcs(v.Gs), v.Gp, name, c.addr(5), v.Own, v.Bs, v.V, zzC04Svcs(v.Cs), v.Cp, addr, reqCID)})
 			}
 		}
 	})
@@ -1457,11 +1474,17 @@ func zzC04OneTrace(tb testing.TB, w *zzWriter, tr, nOps int, seed int64, dir str
 					q.T, q.N = "name", names[rng.Intn(len(names))]
 					q.R, q.RIDs = absClient(rig.st.FindByName(q.N))
 				case k < 9:
-					cid, cs := zzC04NoID, ""
-					if rng.Intn(2) == 0 {
+					cid := zzC04NoID
+					switch rng.Intn(8) {
+					case 0, 1, 2:
 						cid = zzC04ID{K: "cid", X: 1 + rng.Intn(5)}
-						cs = c.cid(cid.X)
+					case 3:
+						// a ClientID that only looks like a mac / an address of the pool
+						cid = zzC04ID{K: []string{"cidmac", "cidmacu"}[rng.Intn(2)], X: 1 + rng.Intn(5)}
+					case 4:
+						cid = zzC04ID{K: "cidip", X: addrs[rng.Intn(len(addrs))]}
 					}
+					cs := c.reqCID(cid)
 					a := addrs[rng.Intn(len(addrs))]
 					if rng.Intn(4) == 0 {
 						a = rng.Intn(256) | zoneOf()
